@@ -1,6 +1,7 @@
 package main
 
 import (
+	"os"
 	"fmt"
 	"go/constant"
 	"strings"
@@ -92,8 +93,8 @@ func ruleC14WaitBeforePost(c *Ctx) {
 	}
 	// the post-processor loop ranges over query.postProcessors and returns a post-processor's error
 	loopOK := false
-	for _, l := range rangeLoops(f) {
-		if t := NewTB().Of(l.over); t.Op == "field" && t.Name == "postProcessors" {
+	for _, l := range deepRangeLoops(f) {
+		if t := l.over; t.Op == "field" && t.Name == "postProcessors" {
 			loopOK = true
 		}
 	}
@@ -440,23 +441,44 @@ func ruleC14SlotRoundTrip(c *Ctx) {
 	if !appended {
 		why = append(why, "the closure is created but not appended to query.postProcessors")
 	}
-	// in the closure: a MapUpdate data[name] = value where value derives from *slot
-	okStore := false
-	allInstrs(post, func(_ *ssa.BasicBlock, in ssa.Instruction) {
-		mu, ok := in.(*ssa.MapUpdate)
-		if !ok {
-			return
-		}
-		t := NewTB().Of(mu.Value)
-		if strings.Contains(t.String(), "fv:valueRaw") || t.Contains(func(x *Term) bool { return x.Op == "freevar" }) {
-			okStore = true
+	// in the post-processor (a function literal, or a method value of a record that carries what the literal captured):
+	// a store row[name] = value where value derives from the slot, with the captured variables / the record's fields
+	// resolved to the projection's own values
+	ctb := NewTB()
+	type store3 struct{ m, k, v *Term }
+	var stores []store3
+	deepInstrsTB(post, closureTB(reg, ctb), func(_ *ssa.Function, tb *TB, _ *ssa.BasicBlock, in ssa.Instruction) {
+		if mu, ok := in.(*ssa.MapUpdate); ok {
+			stores = append(stores, store3{tb.Of(mu.Map), tb.Of(mu.Key), tb.Of(mu.Value)})
 		}
 	})
+	okStore := false
+	for _, st := range stores {
+		if !(strings.Contains(st.v.String(), "assertok[*any](") || strings.Contains(st.v.String(), "assertok[*interface{}](")) {
+			continue
+		}
+		// what is stored is what the slot holds (a dereference on every arm), never the slot itself
+		arms := []*Term{st.v}
+		if st.v.Op == "phi" {
+			arms = st.v.Args
+		}
+		deref := true
+		for _, a := range arms {
+			if a.Op != "load" {
+				deref = false
+			}
+		}
+		if deref {
+			okStore = true
+		} else {
+			why = append(why, "the post-processor stores "+st.v.String()+": the slot itself (a pointer), not the value it holds")
+		}
+	}
 	if !okStore {
 		why = append(why, "the post-processor does not store the slot's value back into the output row")
 	}
-	// the slot itself is stored under the item's key meanwhile, and the post-processor is bound to the same key
-	// variable and the same output map
+	// the slot itself is stored under the item's key meanwhile, and the post-processor writes the same key of the
+	// same output map
 	var immKey, immMap ssa.Value
 	allInstrs(f, func(b *ssa.BasicBlock, in ssa.Instruction) {
 		mu, ok := in.(*ssa.MapUpdate)
@@ -470,22 +492,19 @@ func ruleC14SlotRoundTrip(c *Ctx) {
 	if immKey == nil {
 		why = append(why, "the slot is not stored under the item's key while the call is outstanding")
 	} else {
-		under := func(v ssa.Value) ssa.Value {
-			if u, ok := v.(*ssa.UnOp); ok {
-				return u.X
-			}
-			return v
-		}
-		boundKey, boundMap := false, false
-		for _, b := range reg.Bindings {
-			if b == under(immKey) || b == immKey {
-				boundKey = true
-			}
-			if b == under(immMap) || b == immMap {
-				boundMap = true
+		kt, mt := ctb.Of(immKey).String(), ctb.Of(immMap).String()
+		same := false
+		for _, st := range stores {
+			if st.k.String() == kt && st.m.String() == mt {
+				same = true
 			}
 		}
-		if !boundKey || !boundMap {
+		if !same && os.Getenv("GENQLCHECK_DEBUG") != "" {
+			for _, st := range stores {
+				fmt.Fprintf(os.Stderr, "slot-roundtrip: store m=%s k=%s v=%s\n   want m=%s k=%s\n", st.m, st.k, st.v, mt, kt)
+			}
+		}
+		if !same {
 			why = append(why, "the post-processor is not bound to the same key variable and output map as the immediate store")
 		}
 	}
